@@ -166,3 +166,16 @@ func projOK(got, want Item, proj []string) bool {
 	}
 	return true
 }
+
+// uniqueIndexName keeps an index that a table description lists more than once
+// visible: a description is compared as name -> schema, and a second entry
+// under a name already seen would silently replace the first. The set of
+// indexes a description reports has each index once (C18).
+func uniqueIndexName(d *TableDesc, n string) string {
+	for {
+		if _, seen := d.Indexes[n]; !seen {
+			return n
+		}
+		n += " (listed again)"
+	}
+}
